@@ -2,6 +2,7 @@ from vlib import Ob
 # DecodeSymbols (compressed connectivity, connectivity_method == 0) is cut: covered by C02/C08 kernels; here it is
 # declared unreachable-or-false via a stub that returns false (the raw-index branches are the subject).
 DS = '_ZN5draco13DecodeSymbolsEjiPNS_13DecoderBufferEPj'
+AP = '_ZN5draco26MeshEdgebreakerDecoderImplINS_31MeshEdgebreakerTraversalDecoderEE21AssignPointsToCornersEi'
 OBLIGATIONS = [
   Ob('C03.seq_conn', 'C03/seq.cc', 'h_seq_conn', tier='quick', unwind=7, defines={'NB': 6, 'MAXF': 1}, max_alloc=16, stubs={DS: 'ret0'},
      bound='6 symbolic bytes (symbolic length), bitstream 2.1 and 2.2, <= 1 face; real Mesh/PointCloud objects; compressed-index path (DecodeSymbols) cut',
@@ -9,5 +10,10 @@ OBLIGATIONS = [
   Ob('C03.eb_attr_claim', 'C03/ebattr.cc', 'h_eb_attr_claim', tier='quick', unwind=6, defines={'NB': 4, 'NSLOT': 2}, max_alloc=32, ub=True, flavour='nospec',
      bound='4 symbolic header bytes (symbolic length), every bitstream version 1.2..2.2, 0..2 attribute-data slots with arbitrary binding state, decoder id 0..7; headers that go on to build a traversal sequencer are cut',
      covers='MeshEdgebreakerDecoderImpl<MeshEdgebreakerTraversalDecoder>::CreateAttributesDecoder (slot binding, range and re-binding guards, traversal-method validation) on the real decoder objects'),
+  Ob('C03.eb_assign', 'C03/ebassign.cc', 'h_eb_assign', tier='quick', unwind=7,
+     unwindset=[AP + '.3:3', AP + '.5:3', AP + '.4:2', AP + '.6:2', AP + '.2:2'], defines={'NF': 2, 'NV': 4, 'NA': 1}, max_alloc=64, mem_gb=20, timeout=900,
+     stubs={'_ZNSt6vectorIbSaIbEE13_M_insert_auxESt13_Bit_iteratorb': 'unreachable'},
+     bound='ANY corner table of 2 faces over <= 4 vertices satisfying the C13 invariants (assumed), 0..1 attribute connectivity with arbitrary corner->vertex map and seam flags, arbitrary boundary flags',
+     covers='MeshEdgebreakerDecoderImpl<MeshEdgebreakerTraversalDecoder>::AssignPointsToCorners on real Mesh / MeshEdgebreakerDecoder / CornerTable / MeshAttributeCornerTable objects; Mesh::SetNumFaces, SetFace, PointCloud::set_num_points'),
 ]
 META = {}
